@@ -415,7 +415,7 @@ func runUInner(c UCase, res *uResult) {
 		res.nows[i] = nowNs
 		buf := append([]byte(nil), pkt...)
 		if c.Side == "server" {
-			res.lines = append(res.lines, fmt.Sprintf("srv pkt %d %s %d %s %s %d %d %s", nowNs, b01(tr.long), tr.pid, b01(tr.auth), b01(tr.hdr), tr.typ, tr.ts, b01(tr.rest)))
+			res.lines = append(res.lines, fmt.Sprintf("srv pkt %d %s %d %s %s %d %d %s", nowNs, b01(tr.long), tr.pid, b01(tr.auth), b01(tr.hdr), tr.typ, uint64(tr.ts), b01(tr.rest)))
 			var out string
 			if len(buf) < 16 {
 				_, err := srv.SessionInfo(buf)
@@ -438,7 +438,7 @@ func runUInner(c UCase, res *uResult) {
 			}
 			res.impl = append(res.impl, out)
 		} else {
-			res.lines = append(res.lines, fmt.Sprintf("cli pkt %d %s %d %d %s %s %d %d %d %s", nowNs, b01(tr.long), tr.sid, tr.pid, b01(tr.auth), b01(tr.hdr), tr.typ, tr.ts, tr.csid, b01(tr.rest)))
+			res.lines = append(res.lines, fmt.Sprintf("cli pkt %d %s %d %d %s %s %d %d %d %s", nowNs, b01(tr.long), tr.sid, tr.pid, b01(tr.auth), b01(tr.hdr), tr.typ, uint64(tr.ts), tr.csid, b01(tr.rest)))
 			_, ps, pl, err := cunp.UnpackInPlace(buf, srcAddr, 0, len(buf))
 			out := classify(err)
 			if err == nil && string(buf[ps:ps+pl]) != string(payloadOf(bytesOf, c.Events, i)) {
@@ -477,7 +477,7 @@ func (tr truth) valid(side string, csid uint64, nowNs int64, ownSid uint64) (boo
 		return false, "malformed"
 	case side == "server" && tr.typ != ss2022.HeaderTypeClientPacket, side == "client" && tr.typ != ss2022.HeaderTypeServerPacket:
 		return false, "wrong-type"
-	case tr.ts-sec > ss2022.MaxEpochDiff || tr.ts-sec < -ss2022.MaxEpochDiff:
+	case tr.ts > sec+ss2022.MaxEpochDiff || tr.ts < sec-ss2022.MaxEpochDiff: // no overflow: sec is a sane clock reading
 		return false, "stale"
 	case side == "client" && tr.csid != csid:
 		return false, "foreign-csid"
@@ -690,10 +690,15 @@ func genU(r *common.Rng, maxEv int) UCase {
 			e.Kind, e.Ref, e.Bit = "trunc", r.Intn(i), r.Intn(64)
 		case k < 16:
 			e.Kind, e.Bit = "short", r.Intn(32)
-		case k < 20: // timestamp boundary / stale
+		case k < 19: // timestamp boundary / stale
 			e.Skew = common.Pick(r, []int64{-31, -30, -29, 29, 30, 31, 40, -40, 3600})
-		case k < 21:
-			e.AbsT, e.Skew = true, common.Pick(r, []int64{0, -1, 1 << 62, -(1 << 62), 1<<63 - 1, -(1 << 63), 946684800 + (1 << 32)})
+		case k < 20: // every 64-bit timestamp value is peer-controlled: offsets whose products / differences wrap
+			kk := int64(r.Range(1, 4))
+			e.Skew = common.Pick(r, []int64{kk << 55, -(kk << 55), 1 << 62, -(1 << 62), -(1 << 63), 1 << 32, -(1 << 32), 1 << 31,
+				1 << 33, 1 << 34, 1 << 53, 1 << 54, 1 << 56, 1 << 61, 1<<63 - 1, 9223372037, -9223372037, 18446744074, -18446744074})
+			e.Skew += common.Pick(r, []int64{0, 0, 0, 1, -1, 30, -30, 31, -31}) // int64 wrap intended: now + 2^63 etc.
+		case k < 21: // absolute timestamp words: 0, 2^31, 2^32, 2^62, 2^63-1, 2^63, 2^64-1
+			e.AbsT, e.Skew = true, common.Pick(r, []int64{0, -1, 1 << 31, 1 << 32, 1 << 62, -(1 << 62), 1<<63 - 1, -(1 << 63), 946684800 + (1 << 32), 946684800 + (1 << 55)})
 		case k < 23:
 			e.Typ = 1 - goodTyp
 			if r.Chance(1, 4) {
@@ -723,6 +728,45 @@ func genU(r *common.Rng, maxEv int) UCase {
 		}
 	}
 	return c
+}
+
+// tsProbeCases: directed, seed-independent histories for the "stale timestamp" clause over the whole 64-bit range:
+// between two ordinary packets, one authentic packet per boundary timestamp (clock ± 30/31, 0, 2^31, 2^32,
+// clock ± k·2^55 (± 30/31) for k = 1..4, clock + 2^62, 2^63-1, 2^63, 2^64-1, clock + 2^63, clock ± 2^32, ± 9223372037 s
+// = the first second count whose nanoseconds overflow int64), in both directions.
+func tsProbeCases() []UCase {
+	var cases []UCase
+	for _, side := range []string{"server", "client"} {
+		typ := ss2022.HeaderTypeClientPacket
+		if side == "client" {
+			typ = ss2022.HeaderTypeServerPacket
+		}
+		c := UCase{Side: side, Size: 256, PSKLen: 32, Seed: 0xC04 + uint64(len(cases))}
+		pid := uint64(0)
+		add := func(skew int64, abs bool) {
+			pid++
+			c.Events = append(c.Events, UEvent{At: int64(pid) * 1e6, Kind: "craft", Typ: typ, Pid: pid, Skew: skew, AbsT: abs})
+		}
+		add(0, false)
+		for _, d := range []int64{30, -30, 31, -31} {
+			add(d, false)
+		}
+		for _, a := range []int64{0, 1 << 31, 1 << 32, 1 << 62, 1<<63 - 1, -(1 << 63), -1} {
+			add(a, true)
+		}
+		for k := int64(1); k <= 4; k++ {
+			for _, d := range []int64{0, 30, -30, 31, -31} {
+				add(k<<55+d, false)
+				add(-(k<<55)+d, false)
+			}
+		}
+		for _, o := range []int64{1 << 62, -(1 << 62), -(1 << 63), 1 << 32, -(1 << 32), 9223372037, -9223372037, 18446744074, 1 << 56, 1 << 61} {
+			add(o, false)
+		}
+		add(1, false)
+		cases = append(cases, c)
+	}
+	return cases
 }
 
 func sigU(c UCase) string {
